@@ -75,7 +75,11 @@ func runChaos(prop, part, tier string, seed uint64, idx int) core.Result {
 		// a link is cut, a stream re-opens and the leader re-sends them
 		var syncN atomic.Int64
 		vhook.Set("follower.sync.before", func(string, ...any) {
-			if n := syncN.Add(1); n%3 == 0 {
+			switch n := syncN.Add(1); {
+			case n%11 == 0:
+				// long enough for a cut link to be re-opened and the entries to be sent again meanwhile
+				time.Sleep(time.Duration(10+n%3*10) * time.Millisecond)
+			case n%3 == 0:
 				time.Sleep(time.Duration(200+n%5*200) * time.Microsecond)
 			}
 		})
